@@ -407,7 +407,12 @@ class Engine:
                 raise Undecided(f"`in` on {type(b).__name__}", line)
             return r if isinstance(op, ast.In) else z3.Not(r)
         if isinstance(op, (ast.Eq, ast.NotEq)):
-            r = val_eq(a, b)
+            r = None
+            for x, y in ((a, b), (b, a)):
+                if isinstance(x, VInt) and getattr(x, "is_char", False) and isinstance(y, VStr) and y.lit is not None:
+                    r = (x.t == ord(y.lit)) if len(y.lit) == 1 else z3.BoolVal(False)
+            if r is None:
+                r = val_eq(a, b)
             if r is None:
                 raise Undecided(f"== between {type(a).__name__} and {type(b).__name__}", line)
             return r if isinstance(op, ast.Eq) else z3.Not(r)
@@ -547,7 +552,8 @@ class Engine:
                 n = strlen(base.t)
                 lo_c, ln = self.clamp_slice(lo, hi, n)
                 r = substr(base.t, lo_c, lo_c + ln)
-                self.axioms_once(("substr", str(r)), z3.And(strlen(r) == ln))
+                kk = z3.Int("k!ss")
+                self.axioms_once(("substr", str(r)), z3.And(strlen(r) == ln, z3.ForAll([kk], z3.Implies(z3.And(0 <= kk, kk < ln), charat(r, kk) == charat(base.t, lo_c + kk)))))
                 out = VStr(r)
                 out.window = (base, lo_c, ln)
                 return out
@@ -741,6 +747,10 @@ class Engine:
             self.oblige("pre@callsite", f"{name}:{label}", pc, self.spec(expr, cenv, pc), line)
         if callee.returns is None:
             res = VNone()
+        elif callee.pure:
+            res = self.uf_call(f"pure_{name}", [cenv[p] for p in pnames if not isinstance(cenv[p], (VFunc, VLambda, VPy))], callee.returns)
+            self.assumptions.discard(f"uninterpreted:pure_{name}")
+            self.assumptions.add(f"contract:{name} (deterministic function of its arguments; proved as its own unit)")
         elif self.binders:
             res = self.uf_call(f"ret_{name}!{next(_v._cnt)}", [VInt(b) for b in self.binders], callee.returns)
         else:
@@ -885,17 +895,59 @@ class Engine:
             return self.sorted_model(src, kw.get("key"), reverse, pc, line)
         raise Undecided(f"sorted of {type(src).__name__}", line)
 
-    def bi_min(self, args, kw, env, pc, line):
+    def extremum(self, which, args, kw, env, pc, line):
         if len(args) == 2 and not kw:
             a, b = self.as_int(args[0], pc, line), self.as_int(args[1], pc, line)
-            return VInt(z3.If(a.t <= b.t, a.t, b.t))
-        raise Undecided("min(...)", line)
+            return VInt(z3.If(a.t <= b.t, a.t, b.t) if which == "min" else z3.If(a.t >= b.t, a.t, b.t))
+        if len(args) == 1 and isinstance(args[0], VSeq):
+            seq = args[0]
+            if seq.shape is None:
+                self.may_raise("ValueError", z3.BoolVal(True), pc, line, f"{which}-of-empty")
+                return VInt(0)
+            self.may_raise("ValueError", seq.len <= 0, pc, line, f"{which}-of-empty")
+            if getattr(seq, "singleton", False) and seq.shape == "str":
+                return seq_read(seq, z3.IntVal(0))
+            keyfn = kw.get("key")
+            # the extremum is a deterministic function of the sequence: index chosen by an uninterpreted function
+            flat = self.flatten(seq)
+            idx = self.uf(f"arg{which}", [t.sort() for t in flat], I)(*flat)
+            k = z3.Int(f"k!{next(_v._cnt)}")
+            self.axioms_once((f"arg{which}-range", str(idx)), z3.And(0 <= idx, idx < seq.len))
+            best = seq_read(seq, idx)
+            sub = list(pc) + [0 <= k, k < seq.len]
+            kb = self.key_of_any(keyfn, best, env, sub, line)
+            kk = self.key_of_any(keyfn, seq_read(seq, k), env, sub, line)
+            op = ast.LtE() if which == "min" else ast.GtE()
+            n0 = len(sub)
+            cmpv = self.compare(op, kb, kk, sub, line)
+            extra = sub[len(pc) + 2:]
+            self.axioms_once((f"arg{which}", str(idx)), z3.ForAll([k], z3.Implies(z3.And(0 <= k, k < seq.len), z3.And(cmpv, *extra))))
+            return best
+        raise Undecided(f"{which}(...)", line)
+
+    def key_of_any(self, keyfn, v, env, pc, line):
+        if keyfn is None:
+            return v
+        if isinstance(keyfn, VLambda):
+            return self.apply_lambda(keyfn, [v], pc)
+        if isinstance(keyfn, VFunc):
+            if keyfn.name == "len":
+                return self.bi_len([v], {}, env, pc, line)
+            return self.call_named(keyfn.name, [v], {}, env, pc, line)
+        raise Undecided("key function", line)
+
+    def bi_min(self, args, kw, env, pc, line):
+        return self.extremum("min", args, kw, env, pc, line)
 
     def bi_max(self, args, kw, env, pc, line):
-        if len(args) == 2 and not kw:
-            a, b = self.as_int(args[0], pc, line), self.as_int(args[1], pc, line)
-            return VInt(z3.If(a.t >= b.t, a.t, b.t))
-        raise Undecided("max(...)", line)
+        return self.extremum("max", args, kw, env, pc, line)
+
+    def bi_next(self, args, kw, env, pc, line):
+        seq = args[0]
+        if isinstance(seq, VSeq) and len(args) == 2 and seq.shape is not None:
+            first = seq_read(seq, z3.IntVal(0))
+            return self.ite_val(seq.len > 0, first, args[1], line)
+        raise Undecided("next(...)", line)
 
     def bi_isinstance(self, args, kw, env, pc, line):
         h = self.unit.calls.get("<isinstance>")
@@ -996,6 +1048,10 @@ class Engine:
     # ------------------------------------------------------------------ statements
     def assign(self, target, val, env, pc, line):
         if isinstance(target, ast.Name):
+            if isinstance(val, VSeq) and val.shape is None and target.id in self.unit.local_shapes:
+                sh = self.unit.local_shapes[target.id]
+                typed = fresh_val(target.id, sh)
+                val = VSeq(typed.arrs, z3.IntVal(0), sh[1])
             env[target.id] = val
         elif isinstance(target, (ast.Tuple, ast.List)):
             if any(isinstance(t, ast.Starred) for t in target.elts):
@@ -1101,6 +1157,11 @@ class Engine:
                 v = self.ev(st.value.value, env, pc) if st.value.value is not None else VNone()
                 self.flush_pending(env, outs)
                 self.yields.append((v, list(pc), dict(env), st.lineno))
+                if self.unit.yield_ensures:
+                    yenv = self.with_ghost(self.unit, dict(env))
+                    yenv["value"] = v
+                    for label, expr in self.unit.yield_ensures:
+                        self.oblige("yield", label, pc, self.spec(expr, yenv, pc), st.lineno)
                 ycount = env.get("__yields__")
                 if ycount is not None:
                     env["__yields__"] = VInt(ycount.t + 1)
